@@ -151,10 +151,18 @@ func (e *Enc) envForCall(callee *ssa.Function, args []Val, results []*Term, st *
 	if p := e.L.typesPkg(funcPkgPath(callee)); p != nil {
 		env.pkg = p
 	}
+	if callee == e.top && e.topConPkg != "" {
+		if p := e.L.typesPkg(e.topConPkg); p != nil {
+			env.pkg = p // clauses are resolved in the package that declares the contract
+		}
+	}
 	for i, p := range callee.Params {
 		if i < len(args) {
 			env.vars[p.Name()] = SV{t: args[i].t(), typ: p.Type(), addr: args[i].Addr}
 		}
+	}
+	if e.envAlias != nil && callee == e.top {
+		e.envAlias(env, args)
 	}
 	if results != nil {
 		rs := callee.Signature.Results()
@@ -501,9 +509,7 @@ func (e *Enc) builtin(fr *Frame, x *ssa.Call, bi *ssa.Builtin, st *State) {
 		case *types.Basic:
 			fr.vals[x] = Val{T: []*Term{tb.StrLen(v)}}
 		case *types.Map:
-			c := tb.Func("maplen", []string{RefSort, "Int"}, "Int", v, tb.Int(int64(e.nepoch)))
-			e.assume(tb.True(), tb.Ge(c, tb.Int(0)))
-			fr.vals[x] = Val{T: []*Term{c}}
+			fr.vals[x] = Val{T: []*Term{tb.Ite(tb.Eq(v, tb.Int(0)), tb.Int(0), e.mapLen(st, v))}}
 		default:
 			c := tb.Fresh("len", "Int")
 			e.assume(tb.True(), tb.Ge(c, tb.Int(0)))
